@@ -29,6 +29,11 @@
 
 #include <SequenceBuilderWaveletTree.h>
 
+/** Nodes 0 and 1 are the two artificial roots StringDictionaryXBW puts on top
+ * of the trie (both labelled 0). They are never part of an answer: node 0 is
+ * listed among its own children, so traversing from it never ends. */
+static const uint FIRST_NODE = 2;
+
 XBW::XBW(std::istream &input) {
   // Read the number of nodes
   input.read((char *)&nodesCount, sizeof(uint));
@@ -130,7 +135,7 @@ void XBW::subPathSearch(const uchar *qry, const uint ql, uint *left,
   // answered below: it is the whole block of nodes whose parent is labelled
   // qry[0] (the loop is simply not entered)
   if (ql == 0) {
-    *left = 0;
+    *left = FIRST_NODE;
     *right = nodesCount - 1;
     return;
   }
@@ -147,6 +152,10 @@ void XBW::subPathSearch(const uchar *qry, const uint ql, uint *left,
 
   *left = select_A[s];
   *right = select_A[s + 1] - 1;
+
+  // The block of the root symbol begins with the two artificial roots
+  if (*left < FIRST_NODE)
+    *left = FIRST_NODE;
 
   uint y, z, k1, k2;
 
